@@ -314,8 +314,20 @@ def handle_stores(fm: FuncModel, hk: tuple, field: str) -> list[FieldEvent]:
     return [e for e in fm.field_events() if e.kind == "store" and e.field == field and e.hk == hk]
 
 
-def expanded_assertions(fm: FuncModel, hk: tuple, value: bool = True) -> list[N]:
-    """Branch nodes on which the `expanded` field of the handle is known to be `value`."""
+def expanded_assertions(fm: FuncModel, hk: tuple, value: bool = True, field: str = "expanded") -> list[N]:
+    """Branch nodes on which the `expanded` (or another Boolean) field of the handle is known to be `value`."""
+    global _ASSERT_FIELD
+    _ASSERT_FIELD = field
+    try:
+        return _field_assertions(fm, hk, value)
+    finally:
+        _ASSERT_FIELD = "expanded"
+
+
+_ASSERT_FIELD = "expanded"
+
+
+def _field_assertions(fm: FuncModel, hk: tuple, value: bool) -> list[N]:
     out = []
     for b in fm.cfg.nodes:
         if b.kind != "branch" or b.test is None or b.id not in fm.cfg.g:
@@ -351,7 +363,7 @@ def _expanded_polarity(fm: FuncModel, test: ast.expr, at: N, hk: tuple) -> bool 
             return None
         r = _expanded_polarity(fm, sd[1], sd[0], hk)
         return None if r is None else (r == pol)
-    if isinstance(e, ast.Subscript) and isinstance(e.slice, ast.Constant) and e.slice.value == "expanded":
+    if isinstance(e, ast.Subscript) and isinstance(e.slice, ast.Constant) and e.slice.value == _ASSERT_FIELD:
         if fm.hkey(e.value, at) == hk:
             return pol
     return None
